@@ -5,7 +5,7 @@ from dvlib.core import Broken
 
 ID = 'C08'
 PROPS_FILE = 'theories/props/Properties_C08.v'
-CONE = ['theories/BufLog.v', 'theories/PLog.v', 'theories/Repl.v', 'theories/proofs/C08.v']
+CONE = ['theories/BufLog.v', 'theories/PLog.v', 'theories/Repl.v', 'theories/proofs/C19.v', 'theories/proofs/C08.v']
 IMPORTS = 'From DE Require Import BufLog PLog Repl.'
 QMAX, TMAX = 14, 6
 
